@@ -229,13 +229,14 @@ func TestWorker(t *testing.T) {
 	}
 	// Stall watchdog (real time, outside every bubble): a run that blocks for real
 	// - something the simulator is built to make impossible - must cost seconds,
-	// not the driver's ten-minute limit, and is an infrastructure error.
+	// not the driver's ten-minute limit, and is an infrastructure error. A run
+	// that is merely slow (the scheduler keeps taking steps) is not stalled.
 	stallS := envInt("VERIF_STALL_S", 120)
 	go func() {
 		last, since := int64(-1), time.Now()
 		for {
 			time.Sleep(2 * time.Second)
-			if p := Progress.Load(); p != last {
+			if p := Progress.Load() + simrt.StepsTotal.Load(); p != last {
 				last, since = p, time.Now()
 				continue
 			}
